@@ -21,11 +21,158 @@ func init() {
 func isResultType(t types.Type) bool { return typeShort(t) == "solver.Result" }
 
 // R4.1
+// trimAnalysis explores fn; results of the inner solver (calls returning a Result from package solver, channel
+// receives, and - in helper mode - Result parameters) are "raw" until `x.Model = x.Model[:firstRelax]`.
+// It returns the violations at sends/returns and, for helpers, whether a possibly-Sat raw value can be returned.
+type trimAnalysis struct {
+	w       *World
+	sat     string
+	helpers map[*ssa.Function]int // 0 unknown, 1 returns trimmed (or not Sat), 2 may return raw
+}
+
+func (ta *trimAnalysis) run(fn *ssa.Function, helper bool) (viol map[string]string, exits int, pairs int, trunc bool) {
+	w := ta.w
+	viol = map[string]string{}
+	isRaw := func(st *pstate, v ssa.Value) bool {
+		v = st.resolve(v)
+		switch x := v.(type) {
+		case *ssa.Parameter:
+			return helper && isResultType(x.Type())
+		case *ssa.Call:
+			if !isResultType(x.Type()) {
+				return false
+			}
+			// a helper of the same package that receives a Result: raw unless it always returns it trimmed
+			for _, c := range w.Callees[x] {
+				if w.PkgName(c) != "solver" {
+					takes := false
+					for _, p := range c.Params {
+						if isResultType(p.Type()) {
+							takes = true
+						}
+					}
+					if takes && ta.summary(c) == 1 {
+						return false
+					}
+				}
+			}
+			return true
+		case *ssa.UnOp:
+			return x.Op == token.ARROW
+		case *ssa.Extract:
+			if u, ok := x.Tuple.(*ssa.UnOp); ok && u.Op == token.ARROW {
+				return true
+			}
+		}
+		return false
+	}
+	cellKey := func(al *ssa.Alloc) string { return "cell:" + chainOf(al) }
+	checkExit := func(st *pstate, ins ssa.Instruction, v ssa.Value, what string) {
+		if !isResultType(v.Type()) {
+			return
+		}
+		exits++
+		v = st.resolve(v)
+		if isRaw(st, v) {
+			viol[what+" at "+w.InstrPos(ins)] = "a result of the inner solver is " + what + " as is: a Sat model still contains the relaxation variables"
+			return
+		}
+		if u, ok := v.(*ssa.UnOp); ok && u.Op == token.MUL {
+			if al, ok := u.X.(*ssa.Alloc); ok {
+				if st.facts[cellKey(al)] != "raw" {
+					return
+				}
+				f := st.facts["load:"+chainOf(al)+".Status"]
+				if strings.HasPrefix(f, "!="+ta.sat) || (strings.HasPrefix(f, "=") && f != "="+ta.sat) {
+					return // known not Sat: there is no model
+				}
+				viol[what+" at "+w.InstrPos(ins)] = "the result is " + what + " on a path where it may be Sat and its model has not been cut at the first relaxation variable"
+			}
+		}
+	}
+	pairs, trunc = explore(fn.Blocks[0], &pstate{phi: map[*ssa.Phi]ssa.Value{}, facts: map[string]string{}}, nil, func(ins ssa.Instruction, st *pstate) {
+		switch x := ins.(type) {
+		case *ssa.Store:
+			switch a := x.Addr.(type) {
+			case *ssa.Alloc:
+				if !isResultType(x.Val.Type()) {
+					return
+				}
+				st.forget(chainOf(a) + ".")
+				val := st.resolve(x.Val)
+				if isRaw(st, val) {
+					st.facts[cellKey(a)] = "raw"
+				} else if u, ok := val.(*ssa.UnOp); ok && u.Op == token.MUL {
+					if src, ok := u.X.(*ssa.Alloc); ok {
+						st.facts[cellKey(a)] = st.facts[cellKey(src)]
+						if f, ok := st.facts["load:"+chainOf(src)+".Status"]; ok {
+							st.facts["load:"+chainOf(a)+".Status"] = f
+						}
+					}
+				} else {
+					delete(st.facts, cellKey(a))
+				}
+			case *ssa.FieldAddr:
+				al, ok := a.X.(*ssa.Alloc)
+				if !ok || !isResultType(al.Type().(*types.Pointer).Elem()) {
+					return
+				}
+				_, fname, _, _ := fieldOf(a)
+				if fname == "Status" {
+					st.forget(chainOf(al) + ".Status")
+				}
+				if fname != "Model" {
+					return
+				}
+				trimmed := false
+				if sl, ok := x.Val.(*ssa.Slice); ok && sl.Low == nil && sl.High != nil {
+					if base, ok := sl.X.(*ssa.UnOp); ok && base.Op == token.MUL {
+						if fa, ok := base.X.(*ssa.FieldAddr); ok && fa.X == ssa.Value(al) && fa.Field == a.Field {
+							if _, ok := isFieldLoad(sl.High, "", "firstRelax"); ok {
+								trimmed = true
+							}
+						}
+					}
+				}
+				if trimmed {
+					if st.facts[cellKey(al)] == "raw" {
+						st.facts[cellKey(al)] = "trimmed"
+					}
+				} else if st.facts[cellKey(al)] == "trimmed" {
+					st.facts[cellKey(al)] = "raw"
+				}
+			}
+		case *ssa.Return:
+			if x.Block() == fn.Recover {
+				return
+			}
+			for _, v := range x.Results {
+				checkExit(st, x, v, "returned")
+			}
+		case *ssa.Send:
+			checkExit(st, x, x.X, "sent")
+		}
+	})
+	return
+}
+
+func (ta *trimAnalysis) summary(c *ssa.Function) int {
+	if v, ok := ta.helpers[c]; ok {
+		return v
+	}
+	ta.helpers[c] = 2 // recursion guard: pessimistic
+	viol, _, _, trunc := ta.run(c, true)
+	if len(viol) == 0 && !trunc {
+		ta.helpers[c] = 1
+	}
+	return ta.helpers[c]
+}
+
 func ruleR4_1(w *World, r *Report) {
-	r.Rule("R4.1", "in every implementation of solver.Interface.Optimal outside package solver, a Result coming from the inner solver is returned or sent only after `x.Model = x.Model[:firstRelax]`, or on a path where x.Status == Sat is known false", 1)
+	r.Rule("R4.1", "in every implementation of solver.Interface.Optimal outside package solver, a Result coming from the inner solver is returned or sent only after `x.Model = x.Model[:firstRelax]` (directly or in a helper), or on a path where x.Status == Sat is known false", 1)
 	impls, _ := w.implementations("solver", "Interface")
 	sat, _ := w.statusConst("Sat")
-	satS := fmt.Sprint(sat)
+	ta := &trimAnalysis{w: w, sat: fmt.Sprint(sat), helpers: map[*ssa.Function]int{}}
 	n := 0
 	for _, im := range impls {
 		fn := im.Method
@@ -33,112 +180,8 @@ func ruleR4_1(w *World, r *Report) {
 			continue
 		}
 		n++
-		name := w.FuncName(fn)
-		isRaw := func(st *pstate, v ssa.Value) bool {
-			v = st.resolve(v)
-			switch x := v.(type) {
-			case *ssa.Call:
-				return isResultType(x.Type())
-			case *ssa.UnOp:
-				return x.Op == token.ARROW
-			case *ssa.Extract:
-				if u, ok := x.Tuple.(*ssa.UnOp); ok && u.Op == token.ARROW {
-					return true
-				}
-			}
-			return false
-		}
-		cellKey := func(al *ssa.Alloc) string { return "cell:" + chainOf(al) }
-		viol := map[string]string{}
-		exits := 0
-		checkExit := func(st *pstate, ins ssa.Instruction, v ssa.Value, what string) {
-			if !isResultType(v.Type()) {
-				return
-			}
-			exits++
-			v = st.resolve(v)
-			if isRaw(st, v) {
-				viol[what+" at "+w.InstrPos(ins)] = "a result of the inner solver is " + what + " as is: a Sat model still contains the relaxation variables"
-				return
-			}
-			if u, ok := v.(*ssa.UnOp); ok && u.Op == token.MUL {
-				if al, ok := u.X.(*ssa.Alloc); ok {
-					state := st.facts[cellKey(al)]
-					if state != "raw" {
-						return
-					}
-					f := st.facts["load:"+chainOf(al)+".Status"]
-					if strings.HasPrefix(f, "!="+satS) || (strings.HasPrefix(f, "=") && f != "="+satS) {
-						return // known not Sat: there is no model
-					}
-					viol[what+" at "+w.InstrPos(ins)] = "the result is " + what + " on a path where it may be Sat and its model has not been cut at the first relaxation variable"
-				}
-			}
-		}
-		pairs, trunc := explore(fn.Blocks[0], &pstate{phi: map[*ssa.Phi]ssa.Value{}, facts: map[string]string{}}, nil, func(ins ssa.Instruction, st *pstate) {
-			switch x := ins.(type) {
-			case *ssa.Store:
-				switch a := x.Addr.(type) {
-				case *ssa.Alloc:
-					if !isResultType(x.Val.Type()) {
-						return
-					}
-					st.forget(chainOf(a) + ".")
-					val := st.resolve(x.Val)
-					if isRaw(st, val) {
-						st.facts[cellKey(a)] = "raw"
-					} else if u, ok := val.(*ssa.UnOp); ok && u.Op == token.MUL {
-						if src, ok := u.X.(*ssa.Alloc); ok {
-							st.facts[cellKey(a)] = st.facts[cellKey(src)]
-							if f, ok := st.facts["load:"+chainOf(src)+".Status"]; ok {
-								st.facts["load:"+chainOf(a)+".Status"] = f
-							}
-						}
-					} else {
-						delete(st.facts, cellKey(a))
-					}
-				case *ssa.FieldAddr:
-					al, ok := a.X.(*ssa.Alloc)
-					if !ok || !isResultType(al.Type().(*types.Pointer).Elem()) {
-						return
-					}
-					_, fname, _, _ := fieldOf(a)
-					if fname == "Status" {
-						st.forget(chainOf(al) + ".Status")
-					}
-					if fname != "Model" {
-						return
-					}
-					trimmed := false
-					if sl, ok := x.Val.(*ssa.Slice); ok && sl.Low == nil && sl.High != nil {
-						if base, ok := sl.X.(*ssa.UnOp); ok && base.Op == token.MUL {
-							if fa, ok := base.X.(*ssa.FieldAddr); ok && fa.X == ssa.Value(al) && fa.Field == a.Field {
-								if _, ok := isFieldLoad(sl.High, "", "firstRelax"); ok {
-									trimmed = true
-								}
-							}
-						}
-					}
-					if trimmed {
-						if st.facts[cellKey(al)] == "raw" {
-							st.facts[cellKey(al)] = "trimmed"
-						}
-					} else if st.facts[cellKey(al)] == "trimmed" {
-						st.facts[cellKey(al)] = "raw"
-					}
-				}
-			case *ssa.Return:
-				if x.Block() == fn.Recover {
-					return
-				}
-				for _, v := range x.Results {
-					checkExit(st, x, v, "returned")
-				}
-			case *ssa.Send:
-				checkExit(st, x, x.X, "sent")
-			}
-		})
-		key := name + " trims every Sat result"
+		key := w.FuncName(fn) + " trims every Sat result"
+		viol, exits, pairs, trunc := ta.run(fn, false)
 		if trunc {
 			r.Unk("R4.1", key, w.Pos(fn.Pos()), "state space too large")
 			continue
